@@ -467,6 +467,20 @@ def run_op(pool: Pool, op: dict) -> None:
         pos = op["pos"]
         _guard(can_split, d, pos, 1)
         _guard(can_split, d, pos, 2)
+        rp0 = _guard(d.resolve, pos)
+        if rp0 is not None:
+            # can_split with one types_after entry per split level: the ancestors' own types (always plausible) and
+            # the variant the program drew; the list itself is an argument and must come back unchanged
+            from prosemirror.transform.structure import NodeTypeWithAttrs
+
+            for depth in range(1, min(3, rp0.depth) + 1):
+                own = [NodeTypeWithAttrs(rp0.node(rp0.depth - depth + 1 + i).type, rp0.node(rp0.depth - depth + 1 + i).attrs) for i in range(depth)]
+                names = op.get("types_after") or []
+                drawn = [NodeTypeWithAttrs(lib.nodes[names[i]], None) if i < len(names) and names[i] in lib.nodes else own[i] for i in range(depth)]
+                for ta in (own, drawn):
+                    before = list(ta)
+                    _guard(can_split, d, pos, depth, ta)
+                    require(len(ta) == len(before) and all(a is b for a, b in zip(ta, before)), "argument:types-after-mutated", "can_split changed its types_after list")
         _guard(can_join, d, pos)
         _guard(join_point, d, pos, -1)
         _guard(join_point, d, pos, 1)
@@ -496,6 +510,8 @@ def run_op(pool: Pool, op: dict) -> None:
             pool.add("frag", r, "ContentMatch.fill_before")
         for t in list(lib.nodes.values())[:8]:
             _guard(cm.find_wrapping, t)
+            if t.is_text:
+                continue  # text nodes are only made by schema.text(); create() says so, create_and_fill has no guard
             n = _guard(t.create_and_fill, None, f if op.get("with_content") else None)
             if n is not None:
                 pool.add("node", n, "NodeType.create_and_fill")
@@ -618,6 +634,16 @@ def generate(R: Draw, tier: str) -> dict:
             })
         elif k == "helpers":
             op.update({"pos": a, "span": R.int(0, 8), "slice": R.choice(pool.of("slice"))})
+            if R.bool(0.5):
+                # aim at a textblock position (deep enough for multi-level splits) and draw alternative types
+                from ..ref import resolve as RR
+
+                dp = P.plain(d)
+                rdoc = RR.N(dp, rs)
+                spots = [p for p in range(n + 1) if RR.RefPos(rs, rdoc, p).depth >= 2]
+                if spots:
+                    op["pos"] = R.choice(spots)
+                op["types_after"] = [R.choice([t for t in rs.node_names if not rs.leaf[t]]) for _ in range(3)]
         elif k == "content_match":
             op.update({"frag": R.choice(pool.of("frag")), "with_content": R.bool(0.5)})
         elif k == "html":
@@ -625,6 +651,7 @@ def generate(R: Draw, tier: str) -> dict:
         case["prog"].append(op)
         try:
             run_op(pool, op)
+            pool.verify("generation")  # never keep generating on top of a corrupted pool
         except Violation:
             break  # the check will find it again
     return case
